@@ -16,7 +16,9 @@ package sample
 //@   requires rand != nil && bits >= 0
 //@   modifies hstate(rand)
 //@   allocates
-//@   ensures result != nil
+//@   ensures result != nil && fresh(result)
+// magnitude: bits/8 random bytes, so |result| < 2^(8*(bits/8)) (the provers rely on this to stay inside Paillier's plaintext range)
+//@   ensures natval(result) < pow2(8*(bits/8)) && 0 - natval(result) < pow2(8*(bits/8))
 
 //@ func ModN
 //@   nopanic[C05]
